@@ -89,6 +89,7 @@ def units(tier):
             chain = ["not", chain]
         add("not40", chain)
         add("d4", ["or", [["not", ["and", [["or", [["eq"]]], ["sub_iaf"]]]], ["ext_r"]]], pieces=["n", "e"])
+    us.append({"name": "long_sentence_1500", "shape": {"kind": "long", "n": 1500, "spec": ["or"], "sp": [0, 0, 0, 0]}})
     return us
 
 
@@ -217,7 +218,33 @@ def gen(g, F, spec, sp, top=True):
     return text, obj
 
 
+def _long(ctx, shape):
+    """long flat sentences: many members, many escapes in one value, many substring components"""
+    F = ctx.L.filter
+    n = shape["n"]
+    esc = "".join("\\%02x" % (i % 256) for i in range(60))
+    val = bytes(i % 256 for i in range(60))
+    members_t = "".join(f"(a{i % 7}={esc})" if i % 50 == 0 else f"(a{i % 7}=v{i})" for i in range(n))
+    members = [F.FilterEquality(f"a{i % 7}", val if i % 50 == 0 else f"v{i}".encode()) for i in range(n)]
+    anys = [f"p{i}".encode() for i in range(300)]
+    text = "(|" + members_t + "(cn=i*" + "*".join(a.decode() for a in anys) + "*f)(!(o=*)))"
+    expected = F.FilterOr(members + [F.FilterSubstrings("cn", b"i", anys, b"f"), F.FilterNot(F.FilterPresent("o"))])
+    try:
+        parsed = F.LDAPFilter.from_string(text)
+    except Exception as e:  # noqa: BLE001
+        ctx.fail("long-grammar-sentence-rejected", f"{type(e).__name__}@{exc_site(e)}")
+    ctx.require(parsed == expected, "long-sentence-tree-differs-from-grammar")
+    # and the serialiser writes a text that parses back (C13's direction on the same tree)
+    try:
+        again = F.LDAPFilter.from_string(str(expected))
+    except Exception as e:  # noqa: BLE001
+        ctx.fail("long-tree-text-form-rejected", f"{type(e).__name__}@{exc_site(e)}")
+    ctx.require(again == expected, "long-tree-reparsed-differs")
+
+
 def body(ctx, shape):
+    if shape.get("kind") == "long":
+        return _long(ctx, shape)
     F, M = ctx.L.filter, ctx.L.messages
     g = G(ctx, shape)
     text, expected = gen(g, F, shape["spec"], shape["sp"])
